@@ -698,7 +698,7 @@ async fn ethernet_port_task(
 
         // Clear out old tlvs if we are not in the master state, so we don't keep em too
         // long.
-        if port_in_bmca.is_master() {
+        if !port_in_bmca.is_master() {
             tlv_forwarder.empty()
         }
 
